@@ -20,8 +20,92 @@ ASSUMPTIONS = ["LP64", "object snapshot = sizeof(object) bytes (inline storage o
 BIG = [-1, -2, 2**63, 2**63 - 1, 2**64 - 1 - 3, 2**32, 2**64 - 4]
 
 
+def gen_more(out):
+    """inplace_string (every guarded operation at and beyond its boundary, plus the clamping ones that must never fire)
+    and the remaining components"""
+    for cap in (4, 20):
+        for k in sorted({0, 1, 2, cap - 1, cap}):
+            S = f"str {cap} {k}"
+            room = cap - k
+            for o in ("front", "cfront", "back", "cback", "pb", "pop", "clear"):
+                out.append(f"{S} {o}")
+            POS = sorted({0, 1, max(k - 1, 0), k, k + 1, k + 2}) + [-1, -2, 2**63, 2**63 - 1, 2**64 - 1 - k, 2**32]
+            for p in POS:
+                out += [f"{S} idx {p}", f"{S} cidx {p}"]
+                for c in (0, 1, 3):
+                    out += [f"{S} ins_fill {p} {c}", f"{S} ins_cstr {p} {c}", f"{S} ins_ptr {p} {c}",
+                            f"{S} ins_str {p} {min(c, cap)}", f"{S} ins_view {p} {c}"]
+                for c in (0, 1, k, -1, 2**63):
+                    out += [f"{S} era {p} {c}", f"{S} rep {p} {c} 2", f"{S} rep_ptr {p} {c} 2", f"{S} rep_cstr {p} {c} 2",
+                            f"{S} substr {p} {c}"]
+                for (ls, ps) in ((3, 0), (3, 3), (3, 4), (3, -1), (0, 0), (0, 1)):
+                    for c in (0, 1, -1):
+                        out += [f"{S} ins_str_sub {p} {ls} {ps} {c}", f"{S} ins_view_sub {p} {ls} {ps} {c}",
+                                f"{S} rep5 {p} 1 {ls} {ps} {c}"]
+            starts = sorted(x for x in {0, 1, k - 1, k, k + 1, cap, cap + 1} if 0 <= x <= cap + 1)
+            for st in starts:
+                for d in sorted({-1, 0, 1, k - st, k - st + 1, cap + 1 - st, -st}):
+                    if 0 <= st + d <= cap + 1:
+                        out.append(f"{S} era_it {st} {d}")
+                if st + 1 <= cap + 1:
+                    out.append(f"{S} era_pos {st}")
+            for n in sorted({0, 1, room, room + 1, cap, cap + 1, 26}) + [-1, 2**63, 2**64 - cap, 2**32]:
+                out += [f"{S} ctor_ptr {n}", f"{S} ctor_fill {n}", f"{S} asg_fill {n}", f"{S} asg_ptr {n}",
+                        f"{S} app_fill {n}", f"{S} resize {n}", f"{S} app_ptr {n}"]
+            for n in sorted({0, 1, cap, cap + 1, 25}):
+                out.append(f"{S} asg_cstr {n}")
+            for n in sorted(x for x in {0, 1, room, room + 1, cap} if x <= cap):
+                out += [f"{S} app_str {n}", f"{S} pluseq_str {n}"]
+            for n in sorted({0, 1, room, room + 1, 26}):
+                out.append(f"{S} app_rng {n}")
+            for ls in sorted({0, 3, cap}):
+                for ps in sorted({0, 1, ls, ls + 1}) + [-1]:
+                    for c in sorted({0, 1, room, room + 1}) + [-1]:
+                        out.append(f"{S} app_str_sub {ls} {ps} {c}")
+            for ls in (0, 3, 26):
+                for ps in sorted({0, 1, ls, ls + 1}) + [-1, 2**63]:
+                    for c in sorted({0, 1, cap, cap + 1}) + [-1]:
+                        out += [f"{S} app_view_sub {ls} {ps} {c}", f"{S} asg_view_sub {ls} {ps} {c}"]
+    for d in range(-4, 9):
+        out.append(f"sset {d}")
+    for which in ("strncpy", "wcscpy", "wcsncpy"):
+        for dn in (0, 1):
+            for sn in (0, 1):
+                out.append(f"cpy {which} {dn} {sn}")
+    for e in ((2, 2, 2), (2, 3, 2), (2, 2, 3), (3, 2, 2), (0, 0, 0), (0, 1, 0), (0, 0, 1), (8, 8, 8), (8, 7, 8)):
+        out += [f"linalg add1 {e[0]} {e[1]} {e[2]}", f"linalg copy1 {e[0]} {e[1]} 0", f"linalg swap1 {e[0]} {e[1]} 0"]
+    for e in ((2, 3, 2, 3, 2, 3), (2, 3, 3, 2, 2, 3), (2, 3, 2, 3, 3, 2), (2, 3, 2, 4, 2, 3), (2, 3, 2, 3, 1, 3), (0, 0, 0, 0, 0, 0),
+              (0, 3, 0, 4, 0, 3), (0, 3, 0, 3, 0, 4), (3, 0, 4, 0, 3, 0), (8, 8, 8, 8, 8, 8), (1, 6, 6, 1, 1, 6), (2, 3, 2, 3, 2, 2)):
+        t = " ".join(str(x) for x in e)
+        out += [f"linalg add2 {t}", f"linalg copy2 {t}", f"linalg swap2 {t}"]
+    for e in ((2, 3, 3, 2), (2, 3, 2, 2), (2, 3, 3, 3), (2, 3, 2, 3), (0, 0, 0, 0), (2, 0, 0, 2), (2, 0, 1, 2), (0, 2, 2, 0), (0, 2, 2, 1), (8, 8, 8, 8), (3, 3, 3, 4)):
+        out.append("linalg mvp " + " ".join(str(x) for x in e))
+    for r in [0, 1, 2, 3] + BIG:
+        out.append(f"sstride {r}")
+    import itertools
+    for ln in range(0, 4):
+        for chars in itertools.product((48, 49, 50), repeat=ln):
+            text = " ".join(str(c) for c in (ln,) + chars)
+            for pos in sorted({0, 1, ln, ln + 1}) + [-1, 2**63]:
+                for n in sorted({0, 1, 2, ln}) + [-1, 2**64 - 1 - ln]:
+                    out.append(f"bsstr {text} {pos} {n}")
+    vals = [0]
+    for m in (1, 9, 10, 99, 100, 999, 1000, 9999, 10**9 - 1, 10**9, 2**31 - 1, 2**31, 10**10 - 1, 10**10, 10**18, 2**63 - 1, 2**63):
+        vals += [m, -m]
+    for cap in (0, 1, 3, 10, 20):
+        for v in vals:
+            if -2**31 <= v < 2**31:
+                out.append(f"tostr {cap} int {v}")
+            if -2**63 <= v < 2**63:
+                out.append(f"tostr {cap} long {v}")
+    for ln in range(0, 7):
+        for chars in itertools.product((123, 125, 97), repeat=ln):
+            out.append("fmt " + " ".join(str(c) for c in (ln,) + chars))
+
+
 def gen(tier, rng):
     out = []
+    gen_more(out)
     # static_vector<int,4> with k elements
     for k in range(0, 5):
         sz = k
